@@ -420,6 +420,8 @@ class LogixDriver(CIPDriver):
             self._info["programs"] = {}
             self._info["tasks"] = {}
             self._info["modules"] = {}
+            # definitions of an earlier upload that the controller no longer has must not survive
+            self._data_types = {}
 
         self.__log.info("Starting tag list upload...")
         if program == "*":
